@@ -32,13 +32,12 @@ theorem C08_close_missing (c : Cache) (hw : CWf c) (hk : BrokersKeyed c) (bs : L
   exact h.2
 
 /-- A not-leader / unknown-topic-or-partition answer invalidates the topic's routing and a coordinator
-    error the group's, whatever `fail_on_error` is, for every response `_handle_responses` examined
-    (all of them when nothing was raised); invalid stays invalid through the rest of the pass; and an
+    error the group's, whatever `fail_on_error` is, for EVERY response of the list handed to
+    `_handle_responses` - also for the ones behind the first error that `fail_on_error=True` raises (fix
+    55f24eb, read from the source); invalid stays invalid through the rest of the pass; and an
     invalidated key makes the next resolution fail over to a metadata reload (`leaderOf` has no entry). -/
 theorem C08_invalidate (c : Cache) (hw : CWf c) (foe : Bool) (g : String) (rs : List (String × Int)) :
-    (∃ examined, examined <+: rs ∧
-      invalidateOk (handleResponses c foe (some g) rs).1 (some g) examined = true ∧
-      ((handleResponses c foe (some g) rs).2 = none → examined = rs)) ∧
+    invalidateOk (handleResponses c foe (some g) rs).1 (some g) rs = true ∧
     CWf (handleResponses c foe (some g) rs).1 ∧
     (∀ t p i, topicInvalid c t = true → leaderOf c i (t, p) = .error (.partitionUnavailable i)) := by
   obtain ⟨_, _, h3, h4⟩ := handleResponses_spec foe g rs c hw
